@@ -14,6 +14,7 @@ import (
 
 	chproto "github.com/ClickHouse/ch-go/proto"
 	clconfig "github.com/metrico/cloki-config"
+	"github.com/metrico/cloki-config/config"
 	wconfig "github.com/metrico/qryn/writer/config"
 	wmodel "github.com/metrico/qryn/writer/model"
 	"github.com/metrico/qryn/writer/utils/numbercache"
@@ -73,6 +74,7 @@ func Main(c *run.Ctx) {
 		}
 	}
 	c.Floor("label sets fingerprinted", nsets, 0)
+	c.Floor("series-cache operations checked against the model", 1000, 0)
 	c.Floor("neighbouring label sets fingerprinted", 100, 0)
 	c.Floor("acknowledged samples checked for a discoverable series row", 200, 0)
 	c.Floor("histories with a failed series insert followed by a client retry", 1, 0)
@@ -108,6 +110,9 @@ func Child(c *run.Ctx, name string) {
 	switch cfg.Mode {
 	case "fp":
 		childFP(c, cfg)
+		if cfg.FPType == 1 {
+			childCacheViews(c, cfg)
+		}
 	case "history":
 		childHistory(c, cfg)
 	}
@@ -369,6 +374,64 @@ func canonical(ls [][2]string) string {
 }
 
 func canonicalMap(m [][2]string) string { return canonical(m) }
+
+// ---- monitor 1b: the series cache with several data nodes ----
+
+// childCacheViews checks the real series cache (writer/utils/numbercache) against a sequential model: a
+// (fingerprint, day) key marked through one data node's view is known for that node only; a clustered node's
+// view never remembers anything (its series rows are always sent). Then the same through the parser: the same
+// stream pushed to node n1, then to node n2, must produce a series row for each node.
+func childCacheViews(c *run.Ctx, cfg childCfg) {
+	nodes := map[string]*wmodel.DataDatabasesMap{
+		"n1":  {ClokiBaseDataBase: config.ClokiBaseDataBase{Node: "n1", Name: "db"}},
+		"n2":  {ClokiBaseDataBase: config.ClokiBaseDataBase{Node: "n2", Name: "db"}},
+		"n12": {ClokiBaseDataBase: config.ClokiBaseDataBase{Node: "n12", Name: "db"}}, // a name with another node's name as prefix
+		"cl":  {ClokiBaseDataBase: config.ClokiBaseDataBase{Node: "cl", Name: "db", ClusterName: "qcl"}},
+	}
+	cache := numbercache.NewCache[uint64](time.Hour, func(v uint64) []byte {
+		return []byte{byte(v), byte(v >> 8), byte(v >> 16), byte(v >> 24), byte(v >> 32), byte(v >> 40), byte(v >> 48), byte(v >> 56)}
+	}, nodes)
+	defer cache.Stop()
+	r := c.Rng("c04/cache-views")
+	names := []string{"n1", "n2", "n12", "cl"}
+	model := map[string]bool{}
+	keys := make([]uint64, 12)
+	for i := range keys {
+		keys[i] = r.Uint64()
+	}
+	keys = append(keys, 0, 1, 0x3231, 0x32) // incl. keys whose bytes look like the tail of a node name
+	for op := 0; op < c.Pick(4000, 40000); op++ {
+		n := names[r.Intn(len(names))]
+		k := keys[r.Intn(len(keys))]
+		got := cache.DB(n).CheckAndSet(k)
+		mk := fmt.Sprintf("%s|%d", n, k)
+		want := model[mk] && n != "cl"
+		model[mk] = true
+		c.Floor("series-cache operations checked against the model", 0, 1)
+		if got != want {
+			c.Violation("series-cache/view-disagrees-with-model", fmt.Sprintf("operation %d: CheckAndSet(%d) through the view of node %s returned %v, the model says %v (a key is known per node; clustered nodes remember nothing)", op, k, n, got, want),
+				map[string]any{"op": op, "node": n, "key": k})
+			break
+		}
+	}
+	// through the parser
+	labels := [][2]string{{"sid", "cache-views"}, {"app", "x"}}
+	for _, n := range []string{"n1", "n2", "n1", "n12"} {
+		fn, ctx := parserFor("loki-json-values")
+		var p parsed
+		for rsp := range fn(ctx, bytes.NewReader(bodyFor(c, "loki-json-values", labels, 0)), cache.DB(n)) {
+			if ts, ok := rsp.TimeSeriesRequest.(*wmodel.TimeSeriesData); ok && ts != nil {
+				p.fps = append(p.fps, ts.MFingerprint...)
+			}
+		}
+		mk := "parser|" + n
+		if !model[mk] && len(p.fps) == 0 {
+			c.Violation("series-cache/no-series-row-for-second-node", fmt.Sprintf("the stream was pushed to node %s for the first time and no series row was produced for it (the sample is acknowledged on a node that has no index row)", n), map[string]any{"node": n})
+		}
+		model[mk] = true
+		c.Floor("series-cache operations checked against the model", 0, 1)
+	}
+}
 
 // ---- monitors 2 and 3 ----
 
